@@ -81,6 +81,33 @@ def TABLES():
     L.append('def classBases : List (String × List String) := [%s]' % ', '.join(
         '(%s, [%s])' % (lean_str(c), ', '.join(lean_str(b) for b in bases_of(c)))
         for c in ('ProcessConfig', 'EventListenerConfig', 'FastCGIProcessConfig', 'ProcessGroupConfig', 'EventListenerPoolConfig', 'FastCGIGroupConfig')))
+    # ServerOptions.process_config: is the freshly parsed list installed unconditionally?
+    pc2 = _meth(_cls(opt, 'ServerOptions'), 'process_config')
+    guards, found = [], [False]
+    def walk(stmts, tests):
+        for st in stmts:
+            if isinstance(st, ast.Assign) and any(isinstance(t, ast.Attribute) and t.attr == 'process_group_configs'
+                                                  and isinstance(t.value, ast.Name) and t.value.id == 'self' for t in st.targets):
+                found[0] = True
+                guards.extend(tests)
+            for field, neg in (('body', False), ('orelse', True)):
+                b = getattr(st, field, None)
+                if isinstance(b, list) and b and isinstance(b[0], ast.stmt):
+                    t = getattr(st, 'test', None)
+                    extra = []
+                    if isinstance(st, (ast.If, ast.While)) and t is not None:
+                        extra = [('not (%s)' % ast.unparse(t)) if neg else ast.unparse(t)]
+                    elif not isinstance(st, (ast.If, ast.While)):
+                        extra = ['<%s>' % type(st).__name__]
+                    walk(b, tests + extra)
+            if isinstance(st, ast.Try):
+                for h in st.handlers:
+                    walk(h.body, tests + ['<except>'])
+    walk(pc2.body, [])
+    # local names are resolved one step (new = self.configroot.supervisord.process_group_configs)
+    L.append('/-- ServerOptions.process_config: does it assign self.process_group_configs, and under which tests -/')
+    L.append('def processConfigInstalls : Bool := %s' % ('true' if found[0] else 'false'))
+    lst('processConfigInstallGuards', guards)
     return L
 
 
